@@ -324,16 +324,16 @@ func run(prop, tier string, seed int64, onlyShard int, onlyKeys map[string]bool)
 	// ---- evidence ----
 	if !replayMode {
 		cov := map[string]any{
-			"evaluations":         merged.Evals,
-			"distinct_nontrivial": len(sigs),
-			"rule":                merged.Rule,
-			"samples":             merged.Samples,
-			"counters":            merged.Counters,
-			"worker_shards":       nshards,
-			"worker_restarts":     restarts,
-			"known_findings_hit":  knownHit,
+			"evaluations":             merged.Evals,
+			"distinct_nontrivial":     len(sigs),
+			"rule":                    merged.Rule,
+			"samples":                 merged.Samples,
+			"counters":                merged.Counters,
+			"worker_shards":           nshards,
+			"worker_restarts":         restarts,
+			"known_findings_hit":      knownHit,
 			"unlisted_violation_keys": unknownKeys,
-			"inconclusive":        inconcl,
+			"inconclusive":            inconcl,
 		}
 		if exhaustive {
 			cov["exhaustive"] = true
